@@ -121,7 +121,7 @@ async def call(api, op: str, a: Dict[str, Any], remote=None):
 
 # ------------------------------------------------------------------ expectations
 
-UNAMBIGUOUS_MALFORMED = ["", "2100", "ab:cd", "24:00", "25:10", "12:60", "12:99", "-1:30", "12:-5", "noon"]
+UNAMBIGUOUS_MALFORMED = ["", "2100", "ab:cd", "24:00", "25:10", "12:60", "12:99", "-1:30", "12:-5", "noon", "07:30\n", "07\n:30", "21:00 ", "21:00\t", "12:30Z", "%H:%M", "1_2:30"]
 
 
 def parse_clock(s: str) -> Optional[Tuple[int, int]]:
